@@ -65,3 +65,20 @@ package common
 //@   requires true
 //@ func (*Header).Len(h) (n)
 //@   requires true
+
+// ---------------------------------------------------------------------------------------------
+// decoders (C07 C12)
+//@ elemdecoder (*Header).UnmarshalBinary(h, data) (err) [C07 C12]
+
+//@ elemdecoder (*HelloElemHeader).UnmarshalBinary(h, data) (err) [C07 C12]
+
+//@ elemdecoder (*HelloElemVersionBitmap).UnmarshalBinary(h, data) (err) [C07 C12]
+//@   loop 1:
+//@     invariant 4 <= read && read <= length && length <= len(data) && read == 4 + 4*len(h.Bitmaps)
+//@     decreases length - read
+
+//@ decoder (*Hello).UnmarshalBinary(h, data) (err) [C07 C12]
+//@   ensures err == nil ==> wfl(h)
+//@   loop 1:
+//@     invariant 8 <= next && allwfl(h.Elements)
+//@     decreases len(data) - next
